@@ -1844,7 +1844,20 @@ def router_histories(rng, tier):
         h = Hist(4, 2, 2, 6, ubal, 1000, [6, 18], "random", "router routes")
         assets = [("n", 0), ("n", 1), ("t", 2), ("t", 3)]
         allp = [(a, b) for i, a in enumerate(assets) for b in assets[i + 1:]]
-        setup_pairs(h, rng, allp, comm=rng.choice([None, 0, 3 * 10 ** 15]))
+        # (the history with 10^24 balances gets deep, balanced pools whatever the seed draws, so that its 10^20 routes deliver more
+        # than 10^18 units - C11-agent13 was caught only when the drawn pools happened to be deep)
+        setup_pairs(h, rng, allp, comm=rng.choice([None, 0, 3 * 10 ** 15]), scale=(10 ** 23 if rep % 4 == 1 else None), even=(rep % 4 == 1))
+        # directed: a native ROUND TRIP back to the sender (there and back through one pair) with minimums one unit above the
+        # quote and equal to the amount paid in - the coins attached on entry must not count as received (C11-agent3)
+        for N_, T_ in ((("n", 0), ("t", 2)), (("n", 1), ("n", 0))):
+            u = USER0 + 3
+            amount = max(1000, min(h.bank(u, N_[1]), h.reserves(h.pair_for(N_, T_))[0] // 50 if h.pair_for(N_, T_) else 1000))
+            ops = [(N_, T_), (T_, N_)]
+            for to_ in (None, u):
+                quote = h.query("rsim %d %s" % (amount, ops_line(ops)))
+                if quote:
+                    for m in (quote[0] + 1, amount):
+                        h.do(("router_ops", u, [(N_[1], amount)], ops, m, to_), quote)
         # directed, while the router is certainly empty: routes whose final asset is also spent by an earlier hop
         # (a cycle back to the input through distinct pairs; a 4-hop route ending on a middle asset), no minimum
         sh = list(assets)
